@@ -340,10 +340,17 @@ impl RegretParams {
             strat.fill(0.0);
             strat[ind] = 1.0;
         } else {
+            // shift by the regret with the largest exponent so that `exp` can't overflow: the
+            // highest regret for a positive weight, the lowest for a negative one
+            let extreme = if self.no_positive > 0.0 {
+                f64::max
+            } else {
+                f64::min
+            };
             let max = cum_reg
                 .into_floats_mut()
                 .map(|&mut v| v)
-                .reduce(f64::max)
+                .reduce(extreme)
                 .unwrap();
             let norm: f64 = cum_reg
                 .into_floats_mut()
